@@ -786,6 +786,37 @@ func ruleC17_5(c *Ctx) {
 			}
 		}
 	})
+	// a request for encryption that cannot be understood must fail at open, not fall back to plaintext:
+	// (1) the query is parsed with its error reported (URL.Query() silently drops malformed pairs, e.g. `encrypt=on%`)
+	if callsWhere(dsn, func(cc *ssa.CallCommon) bool { return callIsMethod(cc, "net/url", "URL", "Query") }) {
+		probs = append(probs, "the parameters are read with URL.Query(), which drops malformed pairs without a trace (`...&encrypt=on%` opens unencrypted)")
+	}
+	// (2) some error return is reached only when every comparison of the encrypt value failed (the unknown-value case)
+	unknownRefused := false
+	instrsOf(dsn, func(in ssa.Instruction) {
+		r, ok := in.(*ssa.Return)
+		if !ok || len(r.Results) != 2 || isNilConst(c.An.RetVal(r, 1)) {
+			return
+		}
+		failed := 0
+		for _, dc := range dominatingConds(r.Block()) {
+			for _, lf := range condLeaves(dc.cond, dc.onTrue) {
+				bo, ok := lf.v.(*ssa.BinOp)
+				if !ok || bo.Op != token.EQL || lf.val {
+					continue
+				}
+				if isEncryptParam(bo.X) || isEncryptParam(bo.Y) {
+					failed++
+				}
+			}
+		}
+		if failed >= 2 {
+			unknownRefused = true
+		}
+	})
+	if !unknownRefused {
+		probs = append(probs, "no error is returned for a value of encrypt that matches none of the known spellings (`encrypt=ON`, `encrypt=true` open unencrypted)")
+	}
 	if !spelled["on"] || !spelled["aesgcm"] {
 		probs = append(probs, fmt.Sprintf("the documented values encrypt=on and encrypt=aesgcm are not both recognised (compared with: %v); with the missing spelling the cache silently writes plaintext", sortedKeys(spelled)))
 	}
